@@ -382,11 +382,11 @@ pub fn run(rep: &mut Report) {
     for (li, form, ki, mode, mods, msg) in cube.panics.iter() {
         t.panic(
             "map_keycode",
-            format!("{}|{}|key={:?}", LAYOUT_NAMES[*li], FORM_NAMES[*form], cube.keys[*ki]),
+            format!("{}|{}|key={:?}", layout_name(*li), FORM_NAMES[*form], cube.keys[*ki]),
             msg,
             J::obj()
                 .with("kind", J::s("layout"))
-                .with("layout", J::s(LAYOUT_NAMES[*li]))
+                .with("layout", J::s(layout_name(*li)))
                 .with("form", J::s(FORM_NAMES[*form]))
                 .with("key", J::s(kname(cube.keys[*ki])))
                 .with("mods", J::u(*mods as u64))
@@ -395,7 +395,7 @@ pub fn run(rep: &mut Report) {
                 .with("observed_last", J::s("PANIC")),
         );
     }
-    for li in 0..10u64 {
+    for li in 0..cube.n_layouts as u64 {
         for ki in 0..cube.keys.len() as u64 {
             t.distinct.insert((13, li << 16 | ki));
         }
